@@ -824,7 +824,7 @@ PROPS["C01"] = {
                   "— regression witness corpus/C01/let_in_if_branch; F41 (an integer constant whose C++ spelling is a long literal — "
                   "outside int, or -2147483648 — as argument of Math.max/min: std::max/min deduction fails in every argument "
                   "order, the header does not compile) — KNOWN, attributed semantically by the driver tag f41-spec-c01 (quick 0, "
-                  "thorough 16 batches, corpus 7, no unattributed failure)",
+                  "thorough 16 batches, corpus 7, no unattributed failure) Spec.Sem scopes the statement list of each switch clause separately (declarations end with the clause, also on fall-through; later clauses see the outer variable) — the language after repair 0aff63c (F100); stated deviation from ECMAScript, where the case block is one scope; regression witnesses corpus/C01/switch_clause_scope.c01.req, corpus/C13/switch_clause_scope.c13.req, targeted labels switch-clause-scope-*",
     "technique": "Lean 4 proof (per-construct compiler correctness lemmas over an executable reference semantics) + specification-judged "
                  "execution of the real generated C++ and of the real IR",
 }
@@ -881,7 +881,7 @@ PROPS["C13"] = {
                   "contradicts a pinned snapshot), attributed semantically by the driver tag f42-spec-c13: the real traces must equal "
                   "Spec.Sem with ONLY the arguments-first deviation (quick 5, thorough 43 batches); F44 (F41's cause in a handler: "
                   "long literal as argument of Math.max/min or of the overloaded slot bump(int)/bump(double): header does not compile) — "
-                  "KNOWN, tag f41-spec-c13 (quick 1, thorough 9); no unattributed failure in either tier",
+                  "KNOWN, tag f41-spec-c13 (quick 1, thorough 9); no unattributed failure in either tier Spec.Sem scopes the statement list of each switch clause separately (declarations end with the clause, also on fall-through; later clauses see the outer variable) — the language after repair 0aff63c (F100); stated deviation from ECMAScript, where the case block is one scope; regression witnesses corpus/C01/switch_clause_scope.c01.req, corpus/C13/switch_clause_scope.c13.req, targeted labels switch-clause-scope-*",
     "technique": "Lean 4 proof (overload choice, parameter rule, name mapping) + specification-judged execution of the real generated C++",
 }
 
